@@ -44,11 +44,11 @@ func checkC08(c *Ctx) {
 		ct := gg.Target("lexer", "genlexer/at.go")
 		for n := 1; n <= maxN; n++ {
 			jobs = append(jobs, Job{
-				Name:   fmt.Sprintf("scan-step %s N=%d", lg.Name, n),
-				Target: ct,
-				Run:    SymRun{Harness: "VerifC08Step", Params: map[string]int{"N": n, "ABSTRACT": 0}, LoopBound: 16, LoopBounds: map[string]int{"Scan": n + 3}},
+				Name:           fmt.Sprintf("scan-step %s N=%d", lg.Name, n),
+				Target:         ct,
+				Run:            SymRun{Harness: "VerifC08Step", Params: map[string]int{"N": n, "ABSTRACT": 0}, LoopBound: 16, LoopBounds: map[string]int{"Scan": n + 3}},
 				RequiredCovers: []string{"end"},
-				Bounds: fmt.Sprintf("corpus lexer %s (real tables), every source of %d bytes, every start offset", lg.Name, n),
+				Bounds:         fmt.Sprintf("corpus lexer %s (real tables), every source of %d bytes, every start offset", lg.Name, n),
 			})
 		}
 	}
